@@ -1065,6 +1065,11 @@ func init() {
 		}
 	}
 
+	ident := func(e *Exec, g *G, fn *ssa.Function, args []Value) (Value, bool) { return args[0], true }
+	reg("internal/stringslite.Clone", ident)
+	reg("strings.Clone", ident)
+	reg("strconv.cloneString", ident)
+
 	// --- math/bits ---
 	reg("math/bits.Len64", func(e *Exec, g *G, fn *ssa.Function, args []Value) (Value, bool) {
 		return e.tt.BitsLen64(args[0].(*Term)), true
